@@ -49,7 +49,7 @@ NATIVE_UNITS = {
                              "for_fns": ["vector_ref", "vector_set", "make_vector", "vector_length", "vector", "car", "cdr", "cons", "is_pair", "not", "apply", "abs", "floor", "ceiling", "exact"]},
     "vector_identity_witness": {"file": "src/interpreter/interpreter.rs", "source": "vector_builtins.rs",
                                 "modpath": "interpreter::interpreter", "test": "verif_native_vector_identity_witness", "role": "witness",
-                                "for_fns": ["vector_ref", "make_vector", "vector_length", "vector", "vector_set", "as_mut", "ptr_eq"]},
+                                "for_fns": ["vector_ref", "make_vector", "vector_length", "vector", "vector_set", "as_mut", "ptr_eq", "read_literal"]},
     "macro_witness": {"file": "src/interpreter/interpreter.rs", "source": "macro_rules.rs",
                       "modpath": "interpreter::interpreter", "test": "verif_native_macro_witness", "role": "witness",
                       "for_fns": ["match_datum", "transform"]},
@@ -81,7 +81,8 @@ NATIVE_UNITS = {
                        "test": "verif_native_sign_dot_known", "role": "known", "finding": "sign-dot-identifier-rejected"},
     "reader_witness": {"file": "src/interpreter/interpreter.rs", "source": "reader_data.rs", "modpath": "interpreter::interpreter",
                        "test": "verif_native_reader_witness", "role": "witness",
-                       "for_fns": ["datum", "current_datum", "parse_quoted", "vector", "advance", "advance_unwrap", "peek_next_token", "unwrap_non_end", "locate"]},
+                       "for_fns": ["datum", "current_datum", "parse_quoted", "vector", "advance", "advance_unwrap", "peek_next_token", "unwrap_non_end", "locate",
+                                   "read_literal", "eval_primitive"]},
     "complete_witness": {"file": "src/repl.rs", "source": "repl_complete.rs", "modpath": "repl",
                          "test": "verif_native_complete_witness", "role": "witness",
                          "for_fns": ["check_bracket_closed", "witness_caller"]},
@@ -146,7 +147,7 @@ PROPS = {
                         "derive(Hash, Eq) make LibraryName a lawful HashSet key (vstd obeys_key_model)"],
     },
     "C06": {
-        "verus": ["lexer_tok", "parser_reader"], "kani": [], "native": ["lexer_token_witness", "hash_token_known", "sign_dot_known", "reader_witness"],
+        "verus": ["lexer_tok", "parser_reader", "interp_literal"], "kani": [], "native": ["lexer_token_witness", "hash_token_known", "sign_dot_known", "reader_witness"],
         "level": "proof",
         "explanation": "The lexer half of the reader: every scanner function of Lexer is proved, for texts of any length, against a "
                        "relation between the text at the start of a token, the token produced and the text left over. Whitespace and "
@@ -159,12 +160,16 @@ PROPS = {
                        "The reader proper (unit parser_reader): Parser::datum / current_datum / parse_quoted / vector / advance / advance_unwrap / "
                        "peek_next_token are proved, for token sequences of any length, against a recursive definition of the datum a token "
                        "sequence denotes (rd_tok / rd_at / rd_list / rd_vec, R7RS 7.1.2): which datum each token starts, that 'x is (quote x) at any "
-                       "nesting, and that reading stops exactly after the datum -- relative to ASSUMED contracts of the two loops (see unverified).",
+                       "nesting, and that reading stops exactly after the datum -- relative to ASSUMED contracts of the two loops (see unverified). "
+                       "Data to values (unit interp_literal): Interpreter::read_literal / eval_primitive are proved against the relation lit(datum, value): "
+                       "a symbol is that symbol, a literal token its value (character, string, boolean, integer; a ratio is from_ratio of its parts), a list "
+                       "the list of the values with the same dotted tail, a vector the vector of the values; every datum without a decimal has a value.",
         "unverified": ["Parser::current_list_or_pair (the list / dotted-tail loop: a &mut cursor into the list being built) and Parser::repeat "
                        "(the vector loop: a lazy iterator of closures over &mut self) are outside Verus: their contracts (rd_list, rd_vec) are ASSUMED; "
                        "they are checked only by the BOUNDED enumeration of reader_witness (every token sequence of length <= 6 over ( ) . ' #( a 1 "
                        "against an independent reference reader: structure and number of tokens consumed) -- bounded, not counted as proved",
                        "the value of a decimal literal (f32/f64 FromStr at evaluation time) and of str::parse on digits (std)",
+                       "GenericPair::map_ok_ref (pair.rs, generic recursion) and slice.iter().map().collect(): ASSUMED traversal contracts in unit interp_literal",
                        "string escapes \\x<hex>; and \\<space> (not translated by this lexer: stated as unspecified in scan_string)",
                        "#true / #false / character names (#\\space ...): not supported by the lexer"],
         "assumptions": ["fewer than 2^32 characters (u32 position counters)",
@@ -172,7 +177,7 @@ PROPS = {
                         "str::parse::<T> is a function of the text (uninterpreted)"],
     },
     "C03": {
-        "verus": ["valref_mut", "base_pairs_identity"], "kani": ["valref"], "native": ["vector_identity_witness"],
+        "verus": ["valref_mut", "base_pairs_identity", "interp_literal_const"], "kani": ["valref"], "native": ["vector_identity_witness"],
         "level": "other",
         "explanation": "BOUNDED stand-in (vectors of length 3 at element type u8, kani::unwind 6), not a proof: on ValueReference<Vec<T>> -- the "
                        "type Value::Vector is built on -- a clone is the same object (ptr_eq) and a write through either alias is seen "
@@ -183,7 +188,10 @@ PROPS = {
                        "UNBOUNDED (Verus, unit base_pairs_identity): the builtins vector / make-vector / vector-length / vector-ref / vector-set! "
                        "over a ghost contents function of the shared cell: (vector a ...) holds exactly its arguments, every slot of "
                        "(make-vector n x) IS x, vector-ref returns the element held, vector-set! on a mutable vector stores exactly the given "
-                       "object at exactly that index of THE vector passed, on a literal vector it is the RequiresMutable error.",
+                       "object at exactly that index of THE vector passed, on a literal vector it is the RequiresMutable error. "
+                       "UNBOUNDED (Verus, unit interp_literal_const): Interpreter::read_literal turns a vector datum -- quoted or self-evaluating, at "
+                       "every nesting depth inside lists and vectors -- into an IMMUTABLE vector object (new_immutable) holding the values of its elements: "
+                       "a literal vector is a constant.",
         "unverified": ["set! and frames: LexicalScope::set/get/define, a fresh child frame per call in apply_scheme_procedure",
                        "that releasing a RefMut guard publishes the write to every alias (the meaning of the ghost `stored`): Rc<RefCell> semantics, "
                        "checked only by the bounded Kani harnesses of unit valref and the witness search vector_identity_witness",
@@ -192,7 +200,7 @@ PROPS = {
     },
     "C07": {
         "verus": ["pair_pop", "values_num", "interp_tail", "interp_eval", "repl_complete", "macro_transform", "macro_match", "lexer_pos", "base_cmp", "base_folds", "base_pairs",
-                  "interp_import", "interp_import_union", "interp_library", "interp_loader", "parser_reader"],
+                  "interp_import", "interp_import_union", "interp_library", "interp_loader", "parser_reader", "interp_literal"],
         "kani": ["values", "folds"], "native": ["panic_probe", "tail_arity_panic", "vector_panic_witness"],
         "level": "proof",
         "explanation": "Panic-freedom (no overflow, no failing unwrap/expect, no reachable todo!/unreachable!/panic!, no out-of-bounds index) "
